@@ -36,7 +36,7 @@ def oracle_scan(casefile, limit=20):
         n += 1
         dist[op] = dist.get(op, 0) + 1
         msg = (spec_c13k if op in KOPS else spec_c13).check(op, args, res)
-        if msg is not None and len(fails) < limit:
+        if msg is not None and keep_failure(fails, msg):
             fails.append({"line": lineno, "op": op, "args": args, "impl": res, "why": msg})
     return n, fails, dist
 
